@@ -6,6 +6,8 @@ Oracle: scipy's classical t statistics (paired, one-sample one-sided, one-sample
 evaluation; contrast identities of the stored covariance with the n/(n-1) factor; dual-bootstrap bounds;
 range / symmetry / monotonicity / NaN-aware means / model-permutation equivariance on generated arrays.
 """
+import warnings
+
 import numpy as np
 import scipy.stats
 
@@ -240,21 +242,33 @@ def make_eval(rng, dims, n_model):
     n_nan = int(rng.integers(0, 4))
     if n_nan:
         ev[rng.choice(N, size=n_nan, replace=False)] = np.nan
-    return ev, grid, n_nan
+    unbalanced = False
+    if dims >= 4 and rng.integers(2):
+        unbalanced = True
+        # single cross-validation folds that could not be evaluated: NaNs unbalanced over the trailing axes
+        for _ in range(int(rng.integers(1, 6))):
+            idx = (int(rng.integers(N)), slice(None)) + tuple(int(rng.integers(e)) for e in extra)
+            ev[idx] = np.nan
+    return ev, grid, n_nan, unbalanced
 
 
 def run_tests(ctx):
     rng = ctx.rng
     n_model = int(rng.integers(2, 6))
     dims = int(rng.integers(2, 6))
-    ev, grid, n_nan = make_eval(rng, dims, n_model)
+    ev, grid, n_nan, unbalanced = make_eval(rng, dims, n_model)
     N = ev.shape[0]
-    ok_rows = ~np.isnan(ev.reshape(N, -1)[:, 0])
+    per = ev
+    with warnings.catch_warnings():
+        warnings.simplefilter('ignore')
+        while per.ndim > 2:
+            per = np.nanmean(per, axis=-1)
+    ok_rows = ~np.isnan(per[:, 0])      # a resample counts when at least one of its folds was evaluated
+    if ok_rows.sum() < 3:
+        ctx.count('rejected_too_few_samples')     # no covariance can be formed
+        return
     nc = np.array([rng.uniform(0.1, 0.5, size=N), rng.uniform(0.5, 0.9, size=N)])
     nc[:, ~ok_rows] = np.nan
-    per = ev
-    while per.ndim > 2:
-        per = np.nanmean(per, axis=-1)
     full = np.cov(np.concatenate([per[ok_rows].T, nc[:, ok_rows]]))
     n_rdm = int(rng.integers(3, 20))
     n_pat = int(rng.integers(3, 20))
@@ -277,7 +291,9 @@ def run_tests(ctx):
     ctx.case('means_sem', sig)
     want_mean = np.nanmean(per[ok_rows], axis=0) if ok_rows.any() else None
     gm = res.get_means()
-    if not close(gm, want_mean, 1e-10, 1e-12):
+    # (with NaNs unbalanced over the trailing axes several NaN-aware means exist -- mean of fold means, mean of all
+    # entries, ...; the value is then not dictated here, only that all tests use the reported one, see below)
+    if not unbalanced and not close(gm, want_mean, 1e-10, 1e-12):
         ctx.fail('means_sem', dict(sig, what='means'), f'get_means {np.asarray(gm).tolist()} != NaN-aware mean '
                  f'{want_mean.tolist()}', wit())
     sem = res.get_sem()
@@ -369,7 +385,9 @@ def run_tests(ctx):
         ev3 = ev.copy()
         ev3[:, j] += delta if m[j] >= m[k] else -delta
         pp3 = np.asarray(build(ev3, full, nc).test_pairwise('t-test'))
-        if pp3[j, k] > pp[j, k] + 1e-12:
+        # (with unbalanced NaNs the sign of a small difference can depend on which NaN-aware average is taken, so
+        # "widening" is only well defined for the balanced patterns)
+        if not unbalanced and pp3[j, k] > pp[j, k] + 1e-12:
             ctx.fail('t_monotone', dict(sig, what='pairwise'), f'widening the difference between models {j},{k} raised '
                      f'the pairwise p from {pp[j, k]!r} to {pp3[j, k]!r}', wit(j=j, k=k, delta=delta))
         ncl = float(np.nanmean(nc[0]))
